@@ -48,6 +48,7 @@ def run(ck):
     ck.rule("C07.R7", "Vec<S> / a Layered tree claim to be per-layer-filtered only if every part is", floor=2)
     ck.rule("C07.R6", "per-layer filter combinators (And/Or/Not/Option) publish sound interests and level hints (as C08.R1/R2)", floor=10)
     r1(ck, F)
+    r1b(ck, F)
     r2(ck, F)
     r3(ck, F)
     r4(ck, F)
@@ -171,6 +172,28 @@ def r1(ck, F):
 
 
 # ------------------------------------------------------------------ R2
+def r1b(ck, F):
+    """Filtered::register_callsite lets the wrapped layer register the callsite exactly when the filter did not say `never`
+    (with that polarity), and always adds the filter's interest to the per-callsite sum."""
+    b = F.impl_method("tracing_subscriber::subscribe::Subscribe", SF + "Filtered", "register_callsite")
+    if not ck.anchor("C07.R1", "Filtered::register_callsite", b):
+        return
+    fw = [bb for bb, t in b.calls() if t["callee"].get("trait", "").endswith("subscribe::Subscribe") and t["callee"].get("method") == "register_callsite"]
+    key = "Filtered::register_callsite: the wrapped layer registers the callsite iff the filter's interest is not `never`"
+    ok = len(fw) == 1
+    why = "%d forwarding calls" % len(fw)
+    if ok:
+        g, _ = guards_of(b, fw[0])
+        nv = [v for t, v in g if t.startswith("is_never(")]
+        other = [(t[:50], v) for t, v in g if not t.startswith("is_never(") and t not in ("0", "1")]
+        if not nv or any(v not in (0, False) for v in nv) or other:
+            ok, why = False, "the wrapped layer's register_callsite runs under %s" % [(t[:50], v) for t, v in g]
+    if ok:
+        ck.ok("C07.R1", key, fn=b.path)
+    else:
+        ck.bad("C07.R1", key, where(b.raw["sp"]), why, fn=b.path)
+
+
 def r2(ck, F):
     for m in ("enabled", "event_enabled"):
         b = F.body(FILTERED + m)
@@ -269,7 +292,19 @@ def r3(ck, F):
         if not ck.anchor("C07.R3", fn, b):
             continue
         tests = [t for bb, t in b.calls() if t["callee"].get("method") in ("is_enabled_for", "try_with_filter", "with_filter")]
-        if tests:
+        # ... and with the right polarity: a span is handed out only on a path where the per-filter test said "enabled"
+        wrong = []
+        for pth in PathEval(b).run():
+            if pth.end != "return" or pth.ret is None or not show(pth.ret).startswith("Option::Some"):
+                continue
+            verdicts = [c[1] for c in pth.conds if show(c[0]).startswith("is_enabled_for(")]
+            if verdicts and verdicts[-1] == 0:
+                wrong.append("a span is returned although is_enabled_for(filter) was false for it")
+            if not verdicts and "try_with_filter" not in show(pth.ret):
+                wrong.append("a span is returned without a per-filter test on the path")
+        if tests and wrong:
+            ck.bad("C07.R3", "%s skips spans disabled for the walker's filter" % fn.rsplit("::", 2)[-2] + "::" + fn.rsplit("::", 1)[-1], where(b.raw["sp"]), "; ".join(sorted(set(wrong))), fn=b.path)
+        elif tests:
             ck.ok("C07.R3", "%s skips spans disabled for the walker's filter" % fn.rsplit("::", 2)[-2] + "::" + fn.rsplit("::", 1)[-1], fn=b.path)
         else:
             ck.bad("C07.R3", "%s skips spans disabled for the walker's filter" % fn, where(b.raw["sp"]), "no per-filter test in the scope walk", fn=b.path)
